@@ -18,6 +18,10 @@ CHECKS = {
    technique="complete explicit-state BFS over cache operation histories against a reference model, plus preemption-bounded schedule exploration of real threads with a brute-force linearizability check",
    text="(a) The reachable state space of the real Cache and LRUCache under get/put(ttl)/flush/resize/clock-tick/statistics events on 3 keys with a virtual clock is explored to saturation; every transition is compared with a dict+recency-list reference (freshness, latest-value, LRU order and bound, hit/miss accounting, ring/dict consistency). (b) Every schedule within the preemption bound of 2-3 threads x 1-3 operations on colliding keys (lock-level for all program pairs from a 9-op menu, line-level inside every cache method for hand-picked colliding programs) is executed on the real caches; each call/return history must have a sequential explanation that also reproduces the final internal state.",
    note="dns.resolver.time / dns.resolver.threading rebound to a virtual clock and a cooperative shim; 3 keys, TTL 0-2; a source line is the atomic step; bounded threads/ops/preemptions."),
+ "C10": dict(level="model_checking", ref="DESIGN.md §2 C10",
+   technique="explicit-state search over committed zone contents; every transaction (1-3 operations x argument forms x name spellings x endings incl. an exception injected after every operation index) executed on the real zones and compared with a reference zone model",
+   text="From 6 initial zones, BFS over committed contents; at every state every 1-op transaction of a ~60-call alphabet (add/replace/delete/delete_exact in every argument form, update_serial incl. RFC 1982 wrap) with names spelled relative and absolute, and every 2-op (thorough: also 3-op) transaction over a sub-alphabet, is run on plain/versioned/btree zones x relativize on/off and ended by commit, explicit commit, rollback or an exception after each operation; content, exceptions, reads inside the transaction, version lists, and refusal by ended/read-only transactions are compared with mc/refs/zonemodel.py.",
+   note="Small universe (4 names, 10 records, TTL 3-20); BFS depth 1-2 transactions; the reference model is written from docstrings; rdata/name equality is taken from the library (C07)."),
 }
 ALL = ["C%02d" % i for i in range(1, 21)]
 m = {
